@@ -295,6 +295,12 @@ class Built:
             self.error = type(e).__name__
             self.error_msg = str(e)[:300]
 
+    def executed_at_parse(self):
+        """parse_model *executes* each generated statement as its syntax check, so a constant sub-expression that
+        raises or warns (1/(2-2), log(-7)) makes it fail although the script is inside the grammar."""
+        return self.error in ('ZeroDivisionError', 'OverflowError') or (
+            self.error == 'ParserError' and 'Unexpected warning' in self.error_msg)
+
     def endogenous(self):
         """name -> symbol, for symbols that carry an equation."""
         return {s.name: s for s in self.symbols if s.equation is not None and s.name is not None}
@@ -358,3 +364,127 @@ def literals_of(toks):
 
 def line(kind, obj):
     return kind + '\t' + json.dumps(obj, separators=(',', ':'))
+
+
+# ---- programs <-> JSON (replay files) ----------------------------------------------------------------------------
+
+def e2j(e):
+    if isinstance(e, gs.Term):
+        return ['T', e.kind, e.name, e.index]
+    if isinstance(e, gs.Num):
+        return ['N', e.text]
+    if isinstance(e, gs.Verb):
+        return ['V', e.text]
+    if isinstance(e, gs.Un):
+        return ['U', e.op, e2j(e.e)]
+    if isinstance(e, gs.Bin):
+        return ['B', e.op, e2j(e.l), e2j(e.r)]
+    if isinstance(e, gs.Call):
+        return ['C', e.fname, [e2j(a) for a in e.args]]
+    if isinstance(e, gs.IfElse):
+        return ['I', e2j(e.a), e2j(e.c), e2j(e.b)]
+    raise AssertionError(e)
+
+
+def j2e(j):
+    k = j[0]
+    if k == 'T':
+        return gs.Term(j[1], j[2], j[3])
+    if k == 'N':
+        return gs.Num(j[1])
+    if k == 'V':
+        return gs.Verb(j[1])
+    if k == 'U':
+        return gs.Un(j[1], j2e(j[2]))
+    if k == 'B':
+        return gs.Bin(j[1], j2e(j[2]), j2e(j[3]))
+    if k == 'C':
+        return gs.Call(j[1], tuple(j2e(a) for a in j[2]))
+    if k == 'I':
+        return gs.IfElse(j2e(j[1]), j2e(j[2]), j2e(j[3]))
+    raise AssertionError(j)
+
+
+def p2j(prog):
+    return [[e2j(st.lhs), e2j(st.rhs)] for st in equations(prog)]
+
+
+def j2p(j):
+    return gs.Program([gs.Equation(j2e(l), j2e(r)) for l, r in j])
+
+
+
+class TPos(int):
+    """The value of `t` inside a normalised equation: `t`, `t+k`, `t-k` stay positions, anything else is a label."""
+
+    def __add__(self, k):
+        return TPos(int(self) + k)
+
+    def __sub__(self, k):
+        return TPos(int(self) - k)
+
+
+class Ser:
+    """Series for evaluating a normalised equation as Python: positions (`t±k`) and span labels."""
+
+    def __init__(self, arr, span):
+        self.arr, self.span = arr, span
+
+    def _p(self, k):
+        return int(k) if isinstance(k, TPos) else self.span.index(k)
+
+    def __getitem__(self, k):
+        return self.arr[self._p(k)]
+
+    def __setitem__(self, k, v):
+        self.arr[self._p(k)] = v
+
+
+
+def make_locate(span):
+    """Index text of a named period (quoted, or between backticks) -> position in the span."""
+    import ast
+
+    def locate(ix):
+        return span.index(ast.literal_eval(ix[1:-1] if ix.startswith('`') else ix))
+    return locate
+
+
+
+
+def has_failing_constant(prog):
+    """Does some constant sub-expression (no term inside) of the program raise or warn when evaluated on its own?"""
+    def const(e):
+        if isinstance(e, gs.Num):
+            return True
+        if isinstance(e, gs.Un):
+            return const(e.e)
+        if isinstance(e, gs.Bin):
+            return const(e.l) and const(e.r)
+        if isinstance(e, gs.Call):
+            return all(const(a) for a in e.args)
+        if isinstance(e, gs.IfElse):
+            return const(e.a) and const(e.c) and const(e.b)
+        return False
+
+    def walk(e):
+        if const(e):
+            if isinstance(e, gs.Num):
+                return False
+            try:
+                with warnings.catch_warnings():
+                    warnings.simplefilter('error')
+                    gs.eval_expr(e, lambda term: 0.0)
+                return False
+            except Exception:  # noqa: BLE001
+                return True
+        if isinstance(e, gs.Un):
+            return walk(e.e)
+        if isinstance(e, gs.Bin):
+            return walk(e.l) or walk(e.r)
+        if isinstance(e, gs.Call):
+            return any(walk(a) for a in e.args)
+        if isinstance(e, gs.IfElse):
+            return walk(e.a) or walk(e.c) or walk(e.b)
+        return False
+    return any(walk(st.rhs) for st in equations(prog))
